@@ -259,6 +259,9 @@ def promoteState (conv : Kind → Nat → Option Nat) (k : Kind) (d : DType) (s 
     | none => (some .other, s)
     | some data' => (none, { s with data := data', dtype := some { kind := k', nullable := d.nullable } })
 
+/-- `any(v is None for v in new_values)` -/
+def hasNone (vals : List Cell) : Bool := vals.any (fun c => c.tag == .none)
+
 /-- the block `if updates: …` -/
 def typePhase (P : Kind → Kind → Bool) (conv : Kind → Nat → Option Nat) (vals : List Cell)
     (s : VState) : Option Err × VState :=
@@ -266,7 +269,11 @@ def typePhase (P : Kind → Kind → Bool) (conv : Kind → Nat → Option Nat) 
   match s.dtype with
   | none => (none, s)
   | some d =>
-    if d.kind = .object then (none, s) else
+    if d.kind = .object then
+      -- object columns accept any value, but a None still has to show in the schema
+      (if !d.nullable && hasNone vals then (none, { s with dtype := some { d with nullable := true } })
+       else (none, s))
+    else
     match foldTarget P conv d vals with
     | .error e => (some e, s)
     | .ok target =>
@@ -410,7 +417,6 @@ def kindsOfCells (vals : List Cell) : List Kind := vals.filterMap (fun c => infe
     written -/
 def specKind (k : Kind) (vals : List Cell) : Kind := (kindsOfCells vals).foldl Kind.join k
 
-def hasNone (vals : List Cell) : Bool := vals.any (fun c => c.tag == .none)
 
 /-- some coercion that `validate_scalar` may perform on this written value raises
     (e.g. `float(10**400)`) -/
@@ -485,7 +491,8 @@ def typedDemand (conv : Kind → Nat → Option Nat) (ups : List (Nat × Cell)) 
   match s.dtype with
   | none => .succeed plain
   | some d =>
-    if d.kind = .object then .succeed plain
+    if d.kind = .object then
+      .succeed { plain with dtype := some { d with nullable := d.nullable || hasNone vals } }
     else if coercionRisk conv vals then (innerDemand conv ups s d).relax
     else innerDemand conv ups s d
 
